@@ -317,6 +317,13 @@ pub fn run() -> i32 {
                 let x2: DryocBox<SB<32>, SB<16>, Vec<u8>> = DryocBox::encrypt(&b"payload two".to_vec(), &SB::<24>::from(&ks.n), &SB::<32>::from(&ks.pk_b), &SB::<32>::from(&ks.sk_a)).unwrap();
                 v.push(("DryocBox/clone+clone_from".into(), clone_ok(&x1, &x2)));
                 v.push(("DryocBox/eq".into(), eq_sound(&x1, &x2) && eq_sound(&x1, &x1.clone())));
+                // a sealed box and the same box without its ephemeral public key are different objects
+                let sealed: DryocBox<SB<32>, SB<16>, Vec<u8>> = DryocBox::seal(&b"sealed payload".to_vec(), &SB::<32>::from(&ks.pk_b)).unwrap();
+                let (st_, sd_, _epk) = sealed.clone().into_parts();
+                let stripped: DryocBox<SB<32>, SB<16>, Vec<u8>> = DryocBox::from_parts(st_.clone(), sd_.clone(), None);
+                let other_epk: DryocBox<SB<32>, SB<16>, Vec<u8>> = DryocBox::from_parts(st_, sd_, Some(SB::<32>::from(&ks.pk_a)));
+                v.push(("DryocBox[sealed]/eq".into(), eq_sound(&sealed, &stripped) && eq_sound(&stripped, &sealed) && eq_sound(&sealed, &other_epk) && eq_sound(&sealed, &sealed.clone())));
+                v.push(("DryocBox[sealed]/clone+clone_from".into(), clone_ok(&sealed, &stripped) && clone_ok(&stripped, &sealed)));
             }
             // stack arrays
             macro_rules! arr {
@@ -422,6 +429,36 @@ pub fn run() -> i32 {
             )*};
         }
         fixed!(1, 8, 16, 24, 32, 33, 64, 65);
+        // value-preserving conversions between the container kinds
+        macro_rules! conv {
+            ($($n:literal),*) => {$(
+                {
+                    let arr: [u8; $n] = std::array::from_fn(|i| (i as u8).wrapping_mul(37).wrapping_add(11));
+                    let mut cells: Vec<(&str, Vec<u8>)> = vec![
+                        ("StackByteArray::from(&[u8; N])", SB::<$n>::from(&arr).as_slice().to_vec()),
+                        ("StackByteArray::from([u8; N])", SB::<$n>::from(arr).as_slice().to_vec()),
+                        ("StackByteArray::try_from(&[u8])", SB::<$n>::try_from(&arr[..]).map(|x| x.as_slice().to_vec()).unwrap_or_default()),
+                    ];
+                    #[cfg(feature = "nightly")]
+                    {
+                        use dryoc::protected::{HeapByteArray, HeapBytes};
+                        cells.push(("HeapByteArray::from(&[u8; N])", HeapByteArray::<$n>::from(&arr).as_slice().to_vec()));
+                        cells.push(("HeapByteArray::from([u8; N])", HeapByteArray::<$n>::from(arr).as_slice().to_vec()));
+                        cells.push(("HeapByteArray::from(StackByteArray)", HeapByteArray::<$n>::from(SB::<$n>::from(&arr)).as_slice().to_vec()));
+                        cells.push(("HeapByteArray::try_from(&[u8])", HeapByteArray::<$n>::try_from(&arr[..]).map(|x| x.as_slice().to_vec()).unwrap_or_default()));
+                        cells.push(("HeapBytes::from(&[u8])", HeapBytes::from(&arr[..]).as_slice().to_vec()));
+                    }
+                    for (name, got) in cells {
+                        let ok = got == arr.to_vec();
+                        st.eval(&("conversion", name, $n), true, if ok { "constructor-length-ok" } else { "constructor-length-bad" });
+                        if !ok {
+                            fail(&mut st, &format!("{}<{}>", name, $n), "conversion", format!("{} of a {}-byte value gives {}", name, $n, short(&got)));
+                        }
+                    }
+                }
+            )*};
+        }
+        conv!(1, 8, 16, 24, 32, 33, 64, 65);
         let e = <Vec<u8> as NewBytes>::new_bytes();
         st.eval(&("new_bytes", "Vec<u8>"), true, if e.is_empty() { "constructor-length-ok" } else { "constructor-length-bad" });
         if !e.is_empty() {
